@@ -10,8 +10,10 @@ CONSTANTS
   MaxW = 2
   LookupMode = "fresh"
   MaxConns = 2
+  LookupLocks = "single"
+  MaxWrites = 0
   Cases <- MCCases
 VIEW view
-INVARIANTS NoBytes NoEarlyClose KeepsReading MatchSound ConsumeExact FoundWhenComplete NeverDropsMatching MarkedUsed TableSound RegistryFree DeadlineUnpredictable
+INVARIANTS NoBytes NoEarlyClose KeepsReading MatchSound ConsumeExact FoundWhenComplete NeverDropsMatching MarkedUsed TableSound RegistryFree LockOnce DeadlineUnpredictable
 PROPERTIES Recognised Terminates
 CHECK_DEADLOCK FALSE
